@@ -82,9 +82,12 @@ class _Node(nn.Module):
   def _prog(self):
     return thaw(self.spec)
 
-  def _make_child(self, op):
+  def _make_child(self, op, parent=dataclasses.MISSING):
+    tr = op.get('tr')
+    if tr == 'map_id':
+      tr = 'map_id_init' if self.is_initializing() else 'map_id_apply'
     return make_module(op['prog'], self.dim, shared=self.shared,
-                       name=op.get('name'))
+                       name=op.get('name'), tr=tr, parent=parent)
 
   def _run(self, x, ops, objs):
     children = []
@@ -135,6 +138,41 @@ class _Node(nn.Module):
         self.put_variable(op['col'], op['name'], jnp.sum(x))
       elif k == 'tanh':
         x = jnp.tanh(x)
+      elif k in ('cond', 'switch'):
+        scales = [2.0, -1.0, 0.5]
+        def mk(scale, op=op):
+          def fn(mdl, xx):
+            child = mdl._make_child(op, parent=mdl)
+            return child(xx) * scale
+          return fn
+        if k == 'cond':
+          pred = jnp.sum(x) > op['thr']
+          if op['plain']:
+            x = mk(scales[0])(self, x) if bool(pred) else mk(scales[1])(self, x)
+          else:
+            x = nn.cond(pred, mk(scales[0]), mk(scales[1]), self, x)
+        else:
+          idx = op['k'] % 3
+          if op['plain']:
+            x = mk(scales[idx])(self, x)
+          else:
+            x = nn.switch(jnp.asarray(idx), [mk(sc) for sc in scales], self, x)
+      elif k == 'while':
+        child = self._make_child(op)
+        x = child(x)           # variables must exist before the loop
+        n = op['n']
+        if op['plain']:
+          for _ in range(n):
+            x = child(x)
+        else:
+          def cond_fn(mdl, c):
+            return c[0] < n
+          def body_fn(mdl, c, op=op):
+            i, xx = c
+            return i + 1, mdl._make_child(op, parent=mdl)(xx)
+          _, x = nn.while_loop(cond_fn, body_fn, self, (jnp.asarray(0), x),
+                               carry_variables=list(op['carry']),
+                               broadcast_variables=True)
       else:
         raise AssertionError(k)
     return x
@@ -157,9 +195,13 @@ def _trace_call(mod, x, y):
     TRACE.append((tuple(mod.path), np.asarray(x), np.asarray(y)))
 
 
+CALLS = {}
+
+
 class _Compact(_Node):
   @nn.compact
   def __call__(self, x):
+    CALLS[type(self).__name__] = CALLS.get(type(self).__name__, 0) + 1
     y = self._run(x, self._prog()['ops'], None)
     _trace_call(self, x, y)
     return y
@@ -213,7 +255,7 @@ class _Setup(_Node):
 
 CLASSES = {}
 for _style, _base in (('compact', _Compact), ('setup', _Setup)):
-  for _c in ('A', 'B'):
+  for _c in ('A', 'B', 'W'):
     _name = f'Node{_c}' if _style == 'compact' else f'Setup{_c}'
     CLASSES[(_style, _c)] = type(_name, (_base,), {})
 
@@ -222,8 +264,40 @@ def class_name(prog):
   return CLASSES[(prog['style'], prog['cls'])].__name__
 
 
-def make_module(prog, dim, shared=(), name=None, parent=dataclasses.MISSING):
+TRANSFORMED = {}
+
+
+def transformed_class(cls, tr):
+  key = (cls, tr)
+  if key not in TRANSFORMED:
+    if tr == 'jit':
+      TRANSFORMED[key] = nn.jit(cls)
+    elif tr == 'remat':
+      TRANSFORMED[key] = nn.remat(cls)
+    elif tr in ('map_id_init', 'map_id_apply'):
+      # the documented idiom: init=self.is_initializing()
+      ini = tr == 'map_id_init'
+      TRANSFORMED[key] = nn.map_variables(
+          cls, 'params', trans_in_fn=lambda v: v, trans_out_fn=lambda v: v,
+          mutable=ini, init=ini)
+    elif tr == 'jit_filter':
+      TRANSFORMED[key] = nn.jit(cls, variables=['params'] + STATE_COLS +
+                                SOW_COLS + ['perturbations'], rngs=True)
+    else:
+      raise AssertionError(tr)
+  return TRANSFORMED[key]
+
+
+TR_PREFIX = {'jit': 'Jit', 'jit_filter': 'Jit', 'remat': 'Checkpoint',
+             'map_id': 'Map_variables'}
+ALL_TR = ['jit', 'jit_filter', 'remat', 'map_id']
+
+
+def make_module(prog, dim, shared=(), name=None, parent=dataclasses.MISSING,
+                tr=None):
   cls = CLASSES[(prog['style'], prog['cls'])]
+  if tr:
+    cls = transformed_class(cls, tr)
   kw = {}
   if name is not None:
     kw['name'] = name
